@@ -399,6 +399,75 @@ def _instantiate(h, call, caller, caller_self, form, target=None, shared=frozens
     return out
 
 
+def _pure(e):
+    return not any(isinstance(x, (ast.Call, ast.Await, ast.Yield, ast.YieldFrom, ast.NamedExpr, ast.Lambda, ast.ListComp, ast.SetComp, ast.DictComp, ast.GeneratorExp))
+                   for x in ast.walk(e))
+
+
+def _hoist(call, parent, f, hname):
+    """Move `call` out of the expression it sits in: `S(... call ...)` becomes `tmp = call; S(... tmp ...)`.  Only when the
+    call is evaluated exactly once whenever S is executed, and everything S evaluates before it is free of effects."""
+    node, up = call, parent.get(call)
+    while up is not None and not isinstance(up, ast.stmt):
+        ok = False
+        if isinstance(up, ast.BinOp):
+            ok = node is up.left or (node is up.right and _pure(up.left))
+        elif isinstance(up, ast.UnaryOp):
+            ok = True
+        elif isinstance(up, ast.Call):
+            seq = [up.func] + list(up.args) + [k.value for k in up.keywords]
+            ok = any(node is x for x in seq) and all(_pure(x) for x in seq[:[i for i, x in enumerate(seq) if x is node][0]]) if any(node is x for x in seq) else False
+        elif isinstance(up, (ast.Attribute, ast.Starred, ast.keyword, ast.FormattedValue)):
+            ok = True
+        elif isinstance(up, ast.Subscript):
+            ok = node is up.value or (node is up.slice and _pure(up.value))
+        elif isinstance(up, (ast.Tuple, ast.List, ast.Set)):
+            i = [j for j, x in enumerate(up.elts) if x is node]
+            ok = bool(i) and all(_pure(x) for x in up.elts[:i[0]]) and isinstance(getattr(up, "ctx", ast.Load()), ast.Load)
+        elif isinstance(up, ast.JoinedStr):
+            i = [j for j, x in enumerate(up.values) if x is node]
+            ok = bool(i) and all(_pure(x) for x in up.values[:i[0]])
+        elif isinstance(up, ast.Compare):
+            ok = len(up.ops) == 1 and (node is up.left or (node is up.comparators[0] and _pure(up.left)))
+        elif isinstance(up, ast.BoolOp):
+            ok = node is up.values[0]
+        elif isinstance(up, ast.IfExp):
+            ok = node is up.test
+        if not ok:
+            return False
+        node, up = up, parent.get(up)
+    S = up
+    if not isinstance(S, (ast.Assign, ast.AugAssign, ast.AnnAssign, ast.Expr, ast.Return)) or getattr(S, "value", None) is not node:
+        return False
+    if isinstance(S, ast.AugAssign) and not isinstance(S.target, ast.Name):
+        return False            # the target's sub-expressions are evaluated first
+    if isinstance(S, ast.Assign) and not all(_pure(t) for t in S.targets):
+        pass                    # targets are evaluated after the value
+    holder = parent.get(S)
+    lst = next((getattr(holder, fn_) for fn_ in ("body", "orelse", "finalbody") if isinstance(getattr(holder, fn_, None), list) and S in getattr(holder, fn_)), None)
+    if lst is None:
+        return False
+    taken = _all_names(f)
+    base = "%s_value" % hname.strip("_")
+    tmp, k = base, 1
+    while tmp in taken:
+        k += 1
+        tmp = "%s%d" % (base, k)
+    holder_of_call = parent.get(call)
+    repl = ast.copy_location(ast.Name(id=tmp, ctx=ast.Load()), call)
+    for fname, val in ast.iter_fields(holder_of_call):
+        if val is call:
+            setattr(holder_of_call, fname, repl)
+        elif isinstance(val, list):
+            for i, v in enumerate(val):
+                if v is call:
+                    val[i] = repl
+    new = ast.copy_location(ast.Assign(targets=[ast.Name(id=tmp, ctx=ast.Store())], value=call, lineno=S.lineno), S)
+    ast.fix_missing_locations(new)
+    lst.insert(lst.index(S), new)
+    return True
+
+
 def _class_family(trees):
     """class name -> set of class names that are the class itself or one of its bases by simple name (same-package, by name)."""
     bases = {}
@@ -422,13 +491,14 @@ def _class_family(trees):
 def normalise(trees, protected):
     """trees: module name -> ast.Module (modified in place).  Returns the list of dissolved helpers ('module:qualname')."""
     done = []
-    for _ in range(80):
+    for _ in range(160):
         one = _one_pass(trees, protected)
         if one is None:
             one = _dissolve_object(trees, protected)
         if one is None:
             break
-        done.append(one)
+        if not one.startswith("~"):
+            done.append(one)
     return done
 
 
@@ -542,6 +612,11 @@ def _one_pass(trees, protected):
                 form = "assign"
             elif h.expr_form():
                 form = "expr"
+            if form is None and not h.is_gen and h.assign_form():
+                # a value-returning helper with statements, called inside a larger expression: bind its value to a temporary
+                # in front of the statement (when nothing with an effect is evaluated before the call), and start over
+                if _hoist(call, parent, f, h.name):
+                    return "~hoisted a call of %s" % h.name
             if form is None:
                 ok = False
                 break
